@@ -11,7 +11,7 @@ SMNOTE = (TRUST + "State-machine group: the embedder traits (Storage, PolicyEngi
           "AppSet, Cupv2Handler) are stand-ins whose answers are unconstrained and whose interactions are recorded in ghost logs; Rc<Mutex<_>> is "
           "modelled as uniquely owned; RequestBuilder is an opaque type carrying the builder view; pinned fragments (install join block, "
           "app_responses closure, `.all()`), std iterator-adapter semantics of four outlined fragments and the derive expansions are assumed; "
-          "select!/run/wait_for_reboot (T4) are not under contract unless stated. ")
+          "select! is replaced by a stand-in whose branch choice is arbitrary (any scheduler), pin/waker mechanics are dropped. ")
 
 CLAIMS = {
  "C19": dict(
@@ -57,11 +57,14 @@ CLAIMS = {
    text="Proof (Verus) of the real perform_update_check (475 lines), yield_state, make_app_responses, make_not_updated_result: the sequence of announced states equals a path table "
         "determined by the result and the policy log (error / no update / deferred / denied / installing / installation error), the server response is announced iff authenticated and parsed, "
         "the no-update path is taken iff the announced response offers no update, and the result lists the response's apps in order with cohort and day.",
-   note=SMNOTE + "Per-app action alignment inside the app_responses closure is a pinned (assumed) fragment; Idle/WaitingForReboot emission in run (T4) is not under contract.",
+   note=SMNOTE + "Per-app action alignment inside the app_responses closure is a pinned (assumed) fragment. run's clause (each check followed by Idle, WaitingForReboot in between iff a reboot is pending) is a spliced assertion in the real run loop; start_update_check's (schedule, protocol state, exactly one result last) a postcondition.",
    technique="contract-based deductive verification (Verus) with ghost interaction logs", design="4/C04"),
  "C05": dict(
-   text="Proof (Verus): every ping and every event report carries exactly the parameters it was given (ping: scheduled-task parameters, all apps); the builder view of each wire message equals the builder's.",
-   note=SMNOTE + "Gating clauses of run/wait_for_reboot (T4) and App::valid are not yet under contract; claim restricted to request parameters within a check.",
+   text="Proof (Verus) over the real run, wait_for_reboot, perform_update_check, ping_omaha, report_omaha_event_and_update_context: the machine returns without any interaction if an app is invalid; a negative check decision leads to no request/install in that iteration; "
+        "a check runs with exactly the RequestParams inside the policy's decision and every request of the check (attempts, every event report, per-app report) carries them; the installer is invoked only after update_can_start answered Ok for that plan; "
+        "reboot_needed is asked only after an install without failed app; perform_reboot happens exactly once and only when the most recent reboot_allowed answer is yes; the pending reboot question is upgraded to on-demand only by an on-demand request. "
+        "App::valid <=> id non-empty and version != 0.0.0.0 by a Kani harness (complete over versions).",
+   note=SMNOTE + "Branch choice of select! is arbitrary in the stand-in, so the clauses hold for every interleaving of timer firings and control requests at the granularity of await points; reply delivery (C11) is not modelled.",
    technique="contract-based deductive verification (Verus) with ghost interaction logs", design="4/C05"),
  "C06": dict(
    text="Proof (Verus): randomize's jitter window and dependence on a fresh RNG draw, is_user classification, one exchange per request (none on construction failure), transport error only without response, "
@@ -88,8 +91,9 @@ CLAIMS = {
    note=SMNOTE + "Per-path choice of events inside perform_update_check and the zip alignment are not yet named obligations.",
    technique="contract-based deductive verification (Verus) with ghost interaction logs", design="4/C10"),
  "C12": dict(
-   text="Proof (Verus) of update_next_update_time: policy asked with current apps/schedule/state, answer stored as next_update_time, one ScheduleChange announced.",
-   note=SMNOTE + "make_wait_to_next_check and the select sites are not yet under contract.",
+   text="Proof (Verus) of update_next_update_time (policy asked with current apps/schedule/state, answer stored as next_update_time, one ScheduleChange announced), make_wait_to_next_check (timers armed for exactly the time bound and the minimum wait; "
+        "the returned future's completion condition is Both(min wait, time bound) - not Either), run (the scheduled branch waits on exactly that future for exactly the policy's timing) and wait_for_reboot (reboot question re-asked by a control request only if it is on-demand).",
+   note=SMNOTE + "Firing orders at the poll level are abstracted: a future built by join completes only when both sides did (stand-in contract of futures::future::join), by select when either did.",
    technique="contract-based deductive verification (Verus) with ghost interaction logs", design="4/C12"),
  "C14": dict(
    text="Proof (Verus): absence of panics/overflow (arithmetic, unwrap, index, callee preconditions) in every verified state-machine unit including the 475-line perform_update_check, Context::load on arbitrary stored integers, "
@@ -99,7 +103,8 @@ CLAIMS = {
  "C18": dict(
    text="Proof (Verus) of record_update_first_seen_time (same plan: stored time, no write; new plan: id, time, commit, with exact failure handling), report_attempts_to_successful_install (count = stored+1 saturating, reported every call, reset on success), "
         "report_waited_for_reboot_duration (metric value and exactly-once, nothing on inconsistent clocks).",
-   note=SMNOTE + "Finish-time/target-version persistence ordering and the run prefix are not yet named obligations.",
+   note=SMNOTE + "Also: finish time and the system app's target version are written and committed before reboot_needed is asked (spliced assertion in perform_update_check); run reports the reboot wait only with a stored finish time and a stored target version equal to the running OS version and clears the record (two removes + commit) only after a successful report. "
+        "That the reported duration excludes later delays (start time captured once before the loop) is not covered.",
    technique="contract-based deductive verification (Verus) with ghost interaction logs", design="4/C18"),
 }
 
